@@ -35,6 +35,19 @@ def key_of_type(type_string):
 
 
 def source_bytes(src):
+    if "older_sampler_record" in src:
+        # a Sampler file as an OLDER SunVox wrote it: the instrument record ends after the note map (0x184 bytes: no
+        # max_version / editor fields) -- documented layout, "SAMP" signature present, every edit must still persist
+        from rvref import codec
+
+        data = open(os.path.join(treeenv.FIXTURES, "sampler.sunsynth"), "rb").read()
+        chunks = codec.parse_chunks(data)
+        out = []
+        for cid, d in chunks:
+            if cid == b"CHDT" and len(d) == 0x190 and d[0xFC:0x100] == b"PMAS":
+                d = d[:src["older_sampler_record"]]
+            out.append((cid, d))
+        return codec.build_chunks(out)
     if "fixture" in src:
         return open(os.path.join(treeenv.FIXTURES, src["fixture"]), "rb").read()
     import rv.api as rv
@@ -112,6 +125,8 @@ def sampler_edits(mod):
     for i in (0, 1, 60, 95, 96, 118):
         for v in (0, 1, 2, 127):
             out.append({"k": "map1", "i": i, "n": "note_samples", "v": v})
+    for en in c16.ENVS:
+        out.append({"k": "env_rebind", "e": en, "n": "rebind"})
     return out
 
 
@@ -140,6 +155,8 @@ def apply_sampler_edit(mod, e):
     elif k == "map1":
         keys = list(mod.note_samples.keys())
         mod.note_samples[keys[e["i"]]] = e["v"]
+    elif k == "env_rebind":
+        c16.apply_spec(mod, [{"k": "env_rebind", "e": e["e"]}])       # a NEW envelope object replaces the loaded one
 
 
 def project_edits(obj):
@@ -200,7 +217,7 @@ def apply_edit(obj, mi, e):
     elif k == "praw":
         pat = obj.patterns[e["p"]]
         pat.raw_data = bytes((i * 7 + 3) % 120 if i % 8 == 0 else (i % 100 if i % 8 == 1 else 0) for i in range(pat.lines * pat.tracks * 8))
-    elif k in ("smp_field", "smp_loop", "smp_drop", "env_field", "map1"):
+    elif k in ("smp_field", "smp_loop", "smp_drop", "env_field", "map1", "env_rebind"):
         apply_sampler_edit(obj.modules[mi] if mi is not None else obj.module, e)
     else:
         mod = obj.modules[mi] if mi is not None else obj.module
@@ -211,7 +228,7 @@ def module_path(mi):
     return "module" if mi is None else f"modules[{mi}]"
 
 
-PRESAVE_KINDS = {"cell", "pattr", "pclear", "pbulk", "praw", "elem", "fill", "mcmap", "opt", "cmid", "smp_field", "smp_loop",
+PRESAVE_KINDS = {"env_rebind", "cell", "pattr", "pclear", "pbulk", "praw", "elem", "fill", "mcmap", "opt", "cmid", "smp_field", "smp_loop",
                  "smp_drop", "env_field", "map1", "ip_elem", "ip_cmid", "ip_mcmap", "mm_count", "mm_label", "mm_map",
                  "mm_inner_module", "mm_inner_name", "sm_env_append", "sm_env_point0", "sm_env_flag", "sm_notemap",
                  "sm_sample", "sm_effect", "sm_vibrato", "sv_harmonic", "mmud"}
@@ -396,6 +413,7 @@ def sources(ctx):
         out.append({"type": k, "ctx": "synth"})
         if ctx.thorough or k in ("MetaModule", "Sampler", "MultiCtl", "Generator", "Amplifier"):
             out.append({"type": k, "ctx": "project"})
+    out.append({"older_sampler_record": 0x184, "ctx": "synth"})
     from checks import c15, c16
 
     class _Q:
@@ -453,7 +471,7 @@ def _task(t):
             C.count(r, "presave")
         r["evals"] += 1
         C.count(r, st.split(":")[0])
-        r["digests"].add(C.h8(repr((src.get("fixture") or src.get("type") or src["case"]["label"], mi, e)).encode()))
+        r["digests"].add(C.h8(repr((src.get("fixture") or src.get("type") or src.get("older_sampler_record") or src["case"]["label"], mi, e)).encode()))
         if len(r["violations"]) < 30:
             r["violations"] += vs
     if work[lo:hi]:
